@@ -64,6 +64,7 @@ from tensordict.utils import (
     _is_number,
     _is_tensorclass,
     _KEY_ERROR,
+    _lock_after_memmap,
     _lock_warn,
     _make_dtype_promotion,
     _maybe_correct_neg_dim,
@@ -5633,19 +5634,21 @@ class TensorDictBase(MutableMapping):
                 )
                 if not return_early:
                     concurrent.futures.wait(futures)
-                    return result
+                    return _lock_after_memmap(result)
                 else:
                     return TensorDictFuture(futures, result)
-        return self._memmap_(
-            prefix=prefix,
-            copy_existing=copy_existing,
-            inplace=True,
-            futures=None,
-            executor=None,
-            like=False,
-            share_non_tensor=share_non_tensor,
-            existsok=existsok,
-        ).lock_()
+        return _lock_after_memmap(
+            self._memmap_(
+                prefix=prefix,
+                copy_existing=copy_existing,
+                inplace=True,
+                futures=None,
+                executor=None,
+                like=False,
+                share_non_tensor=share_non_tensor,
+                existsok=existsok,
+            )
+        )
 
     @abc.abstractmethod
     def make_memmap(
@@ -5835,20 +5838,22 @@ class TensorDictBase(MutableMapping):
                 )
                 if not return_early:
                     concurrent.futures.wait(futures)
-                    return result
+                    return _lock_after_memmap(result)
                 else:
                     return TensorDictFuture(futures, result)
 
-        return self._memmap_(
-            prefix=prefix,
-            copy_existing=copy_existing,
-            inplace=False,
-            executor=None,
-            like=False,
-            futures=None,
-            share_non_tensor=share_non_tensor,
-            existsok=existsok,
-        ).lock_()
+        return _lock_after_memmap(
+            self._memmap_(
+                prefix=prefix,
+                copy_existing=copy_existing,
+                inplace=False,
+                executor=None,
+                like=False,
+                futures=None,
+                share_non_tensor=share_non_tensor,
+                existsok=existsok,
+            )
+        )
 
     def memmap_like(
         self,
@@ -5940,7 +5945,7 @@ class TensorDictBase(MutableMapping):
                 )
                 if not return_early:
                     concurrent.futures.wait(futures)
-                    return result
+                    return _lock_after_memmap(result)
                 else:
                     return TensorDictFuture(futures, result)
 
@@ -5948,16 +5953,18 @@ class TensorDictBase(MutableMapping):
             return torch.empty((), device=x.device, dtype=x.dtype).expand(x.shape)
 
         input = self.apply(empty_expand)
-        return input._memmap_(
-            prefix=prefix,
-            copy_existing=copy_existing,
-            inplace=False,
-            like=True,
-            executor=None,
-            futures=None,
-            share_non_tensor=share_non_tensor,
-            existsok=existsok,
-        ).lock_()
+        return _lock_after_memmap(
+            input._memmap_(
+                prefix=prefix,
+                copy_existing=copy_existing,
+                inplace=False,
+                like=True,
+                executor=None,
+                futures=None,
+                share_non_tensor=share_non_tensor,
+                existsok=existsok,
+            )
+        )
 
     @classmethod
     def load(cls, prefix: str | Path, *args, **kwargs) -> T:
